@@ -37,13 +37,14 @@ def run_spec(
     maxcor_max: int = 10,
     units: bool = False,
     extras: bool = False,
+    shift: bool = False,
 ):
     mode = draw(st.sampled_from(list(jac_modes)))
     fams = list(families)
     if mode == "cs":
         fams = [f for f in fams if f in ANALYTIC_FAMILIES] or list(ANALYTIC_FAMILIES)
     p = draw(problem_spec(families=fams, n_max=n_max, narrow=narrow, box_mode=box_mode,
-                          allow_degenerate=allow_degenerate, kappa_max_exp=kappa_max_exp, units=units))
+                          allow_degenerate=allow_degenerate, kappa_max_exp=kappa_max_exp, units=units, shift=shift))
     cfg: Dict[str, Any] = {
         "maxcor": draw(st.integers(1, maxcor_max)),
         "maxiter": draw(st.integers(*maxiter)),
